@@ -8,7 +8,7 @@ query is compared after every operation.
 import collections
 
 from .. import kernel
-from ..kernel import Violation, Boom, SimHang
+from ..kernel import Violation, Boom, Crash, SimHang
 
 Counter = collections.Counter
 OP_BUDGET = 30000        # desper lines per top-level operation (liveness)
@@ -469,6 +469,8 @@ class Interp:
         self.probes['world_cleared_by_on_remove_of_the_deletion_pass'] += 1
         self.faults['clear_during_reaping'] += 1
         self.w.clear()
+        self.model_cleared()    # what other callbacks of the pass do next
+                                # meets an empty world
 
     def reap_now(self, op):
         """From an on_remove callback of the deletion pass: finish off
@@ -602,7 +604,7 @@ class Interp:
                 return ('ret', thunk())
         except Violation:
             raise
-        except Boom:
+        except (Boom, Crash):
             raise
         except SimHang as e:
             self.fail(owner, 'hang', f'{what}: {e}')
@@ -1207,7 +1209,9 @@ class Interp:
 
     def op_raise(self, op, start):
         self.faults['raise_in_processor'] += 1
-        self.trace.add('fault', 'raise')
+        self.trace.add('fault', 'raise', *op[1:])
+        if len(op) > 1:     # not an Exception (think KeyboardInterrupt)
+            raise Crash('injected')
         raise Boom('injected')
 
     def op_process(self, op, start):
@@ -1307,7 +1311,7 @@ class Interp:
         try:
             with kernel.budget(OP_BUDGET):
                 self.w.process(dt)
-        except Boom as e:
+        except (Boom, Crash) as e:
             boom = e
         except Violation:
             raise
@@ -1503,6 +1507,21 @@ class Interp:
         if not was_enabled:
             self.flags.add('reuse_after_clear_disabled')
         self.check_log(start, groups, ('C02',), 'clear')
+
+    def op_rebase(self, op, start):
+        """The hierarchy is rearranged after the fact: the bases of a class
+        are assigned (`K.__bases__ = ...`).  Queries follow the hierarchy as
+        it is now."""
+        _, ci, newb = op
+        A = self.actors
+        if ci not in A.classes or any(b not in A.classes for b in newb):
+            return 'skip'
+        try:
+            A.classes[ci].__bases__ = tuple(A.classes[b] for b in newb)
+        except TypeError:
+            return 'skip'       # (layout / MRO conflict: nothing changed)
+        self.probes['hierarchy_rearranged'] += 1
+        return None
 
     def op_defclass(self, op, start):
         _, ci = op
@@ -1789,7 +1808,7 @@ def execute(scenario, prop, tolerate=frozenset()):
     except Violation as v:
         violation = v.to_json()
         violation['op'] = idx
-    except Boom:
+    except (Boom, Crash):
         violation = {'props': ['HARNESS'], 'kind': 'boom_escaped',
                      'detail': 'injected exception escaped', 'op': idx}
     it.stats['steps'] = kernel.StepBudget.total - s0
@@ -2219,6 +2238,30 @@ def generate(prop, run_seed, tier='quick', tolerate=frozenset()):
         ops.append(['process', 1])
         sh.apply(ops[-1])
         n += len(ops)
+    if prop in ('C06', 'C01') and crng.random() < .15:
+        # classes whose bases are assigned later on (plain ones only:
+        # neither they nor their relatives are event handlers)
+        specs = cfg['classes']
+
+        def handler(c):
+            return bool(specs[c].get('deco') or specs[c].get('inst_events')
+                        or specs[c].get('inst_cb') or specs[c].get('ctrl')
+                        or specs[c].get('fake_class') is not None)
+        related = {c: sh.ancestors(c) | {c} for c in range(len(specs))}
+        safe = [c for c in range(1, len(specs)) if not any(
+            handler(x) for x in range(len(specs))
+            if x in related[c] or c in related[x])]
+        cfg['rebase'] = []
+        for _ in range(crng.randint(1, 2)):
+            if not safe:
+                break
+            c = crng.choice(safe)
+            pool = [b for b in range(c) if b in safe or not handler(b)
+                    and not any(handler(x) for x in related[b])]
+            if not pool:
+                continue
+            cfg['rebase'].append(['rebase', c, sorted(crng.sample(
+                pool, min(len(pool), crng.choice([1, 1, 2]))), reverse=True)])
     spam = None
     if prop == 'C07':
         r_spam = crng.random()
@@ -2247,11 +2290,15 @@ def generate(prop, run_seed, tier='quick', tolerate=frozenset()):
                             script.append(nop)
                             sh.apply(nop)
                     if fault_left and rng.random() < .3:
-                        script.append(['raise'])
+                        script.append(['raise'] if rng.random() < .7
+                                      else ['raise', 'crash'])
                         fault_left -= 1
                     if script:
                         scripts[f'proc:{pi}:{cnt}'] = script
         sh.apply(op)
+    for rb in cfg.pop('rebase', []) if isinstance(cfg.get('rebase'), list) \
+            else []:
+        ops.insert(crng.randint(len(ops) // 3, len(ops)), rb)
     if spam is not None:
         # processors of different types registered before it with priorities
         # one above those of processors registered after it
